@@ -1,4 +1,4 @@
-Require Import OPC.Graph OPC.GraphThm.
+Require Import OPC.Graph OPC.GraphThm OPC.GraphLfp.
 From Coq Require Import NArith List Bool. Import ListNotations. Open Scope N_scope.
 
 (* the fuel of the two retry loops and of the removal cascade suffices for every graph *)
@@ -39,3 +39,42 @@ Theorem C08_name_pressure_refuted :
                 forall e, In e (res_errs (build_schemas g)) -> er_unit e <> n_ref n /\ ~ In (n_ref n) (er_removed e).
 Proof. exact name_pressure_refuted. Qed.
 Print Assumptions C08_name_pressure_refuted.
+
+(* the cascade deletes exactly the recorded dependants+ of the models that failed; create / process never delete *)
+Theorem C08_removal_exact : forall g,
+  let s2 := r_st (process_loop (r_st (create_loop g))) in
+  let pl := process_loop (r_st (create_loop g)) in
+  forall r, has (s_cbr s2) r = true -> has (res_cbr (build_schemas g)) r = false ->
+  exists q c, In (q, c) (r_final pl ++ r_retry pl) /\ Reach (s_deps s2) (s_cbr s2) (e_roots (q_entry q)) r.
+Proof. exact removal_exact. Qed.
+Print Assumptions C08_removal_exact.
+
+(* the retry loops compute least fixed points: order of the components does not matter *)
+Theorem C08_create_lfp : forall g, wf_graph g = true -> g_plain g = true -> g_no_dup_error g = true ->
+  forall n, In n g -> (has (s_cbr (r_st (create_loop g))) (n_ref n) = true <-> C g n).
+Proof. exact create_lfp. Qed.
+Print Assumptions C08_create_lfp.
+
+Theorem C08_process_lfp : forall g, wf_graph g = true -> g_allof_direct g = true -> g_plain g = true -> g_no_dup_error g = true ->
+  forall q, In q (s_queue (r_st (create_loop g))) ->
+  ((exists c, In (q, c) (r_final (process_loop (r_st (create_loop g))) ++ r_retry (process_loop (r_st (create_loop g))))) <-> ~ P g (q_entry q)).
+Proof. exact process_failed_iff. Qed.
+Print Assumptions C08_process_lfp.
+
+(* containment: D and D+b differ in the description of component b only; what does not reach b has the same fate in both *)
+Theorem C08_containment : forall b g g', agree_off b g g' -> g_contain g = true -> g_contain g' = true ->
+  forall n, In n g -> ~ reaches g b (n_ref n) -> (Surv g (n_ref n) <-> Surv g' (n_ref n)).
+Proof. exact containment. Qed.
+Print Assumptions C08_containment.
+
+Theorem C08_containment_exact : forall b g g', agree_off b g g' -> g_contain g = true -> g_contain g' = true -> ~ Surv g' b ->
+  forall n, In n g -> (Surv g' (n_ref n) <-> Surv g (n_ref n) /\ ~ reaches g b (n_ref n)).
+Proof. exact containment_exact. Qed.
+Print Assumptions C08_containment_exact.
+
+Theorem C08_union_inline_reprocessed_refuted :
+  exists g, wf_graph g = true /\ g_no_name_pressure g = true /\ g_no_union_edge_to_failing g = false /\
+    exists n c, In n g /\ has (res_cbr (build_schemas g)) (n_ref n) = true /\ In c (node_mints n) /\
+                has (res_cbn (build_schemas g)) c = false /\ map er_removed (res_errs (build_schemas g)) = [[]].
+Proof. exact union_inline_reprocessed_refuted. Qed.
+Print Assumptions C08_union_inline_reprocessed_refuted.
